@@ -259,6 +259,11 @@ func (e *kvElection) attemptAcquireWithRetry(ctx context.Context) {
 		default:
 		}
 
+		// Another acquisition attempt of this instance may have won in the meantime
+		if e.IsLeader() {
+			return
+		}
+
 		err := e.attemptAcquire()
 		if err == nil {
 			return
@@ -275,7 +280,9 @@ func (e *kvElection) attemptAcquireWithRetry(ctx context.Context) {
 					zap.Error(err),
 				)...,
 			)
-			e.becomeFollower()
+			if !e.IsLeader() {
+				e.becomeFollower()
+			}
 			return
 		}
 
